@@ -27,7 +27,7 @@ func c06Key(r *rng.R) string {
 
 func runC06(c *fw.Ctx) {
 	steps := c.N(40, 60)
-	c.Cases("programs", c.N(1500, 60000), false, func(i int, r *rng.R) {
+	c.Cases("programs", c.N(1500, 600000), false, func(i int, r *rng.R) {
 		p := &prog{c: c, r: r, h: &model.Heap{}}
 		guard(c, p.input, func() { c06Program(p, steps) })
 		if len(p.trace) >= 5 {
